@@ -133,6 +133,8 @@ def rand_params(rng, peak):
     alpha = float(rng.uniform(0, 0.5)) if rng.integers(4) else 0.0
     b2 = float(rng.uniform(-25, 25))
     b3 = float(rng.uniform(-0.2, 0.2)) if rng.integers(2) else 0.0
+    if rng.integers(6) == 0:          # the zero-dispersion point: third-order dispersion only
+        b2, b3 = 0.0, float(rng.uniform(0.02, 0.2)) * float(rng.choice([1, -1]))
     gmax = min(5.0, 10.0 / (peak * L))
     gamma = float(rng.uniform(0.05, 1) * gmax)
     phi = float(10 ** rng.uniform(math.log10(5e-4), -1))
@@ -279,6 +281,8 @@ def w_converge(ctx, rng, i):
     alpha = float(rng.uniform(0, 0.5)) if i % 3 else 0.0
     b2 = float(rng.uniform(2, 25)) * float(rng.choice([1, -1]))
     b3 = float(rng.uniform(-0.2, 0.2)) if rng.integers(2) else 0.0
+    if i % 8 == 5:                    # zero-dispersion point: beta2 = 0 exactly, beta3 only
+        b2, b3 = 0.0, float(rng.uniform(0.05, 0.2)) * float(rng.choice([1, -1]))
     target = float(rng.uniform(0.3, 4.0)) if ctx.tier == "quick" else float(rng.uniform(0.3, 10.0))
     gamma = min(5.0, target / (peak * L))
     a = alpha * math.log(10) / 10
